@@ -193,6 +193,12 @@ def build_field(d, ctx, **extra):
             return f
     if k in ("number", "integer", "float"):
         cls = SIGN_CLASSES[(k, d.get("sign", "any"))]
+        if d.get("dec"):
+            # DecimalNumber: a `number` declaration whose arguments go through Decimal(...) first (Sem/Decimal.lean)
+            if k != "number" or d.get("sign", "any") != "any":
+                raise ValueError("build_field: DecimalNumber is a plain `number` declaration")
+            from typedpy import DecimalNumber
+            cls = DecimalNumber
         kw = {}
         if d.get("mult") is not None:
             kw["multiplesOf"] = d["mult"]
@@ -203,6 +209,8 @@ def build_field(d, ctx, **extra):
         if d.get("excl"):
             kw["exclusiveMaximum"] = True
         return cls(**kw, **extra)
+    if k == "string" and (d.get("fmt") is not None or d.get("maxlen") is not None):
+        return _build_xstring(d, extra)
     if k == "string":
         kw = {n: d[n] for n in ("minLength", "maxLength", "pattern") if d.get(n) is not None}
         return String(**kw, **extra)
@@ -270,6 +278,54 @@ def build_field(d, ctx, **extra):
     if k == "anything":
         return Anything(**extra)
     raise ValueError(f"build_field: {k}")
+
+
+def _build_xstring(d, extra):
+    """extension string fields: SizedString ("maxlen") and the formatted strings ("fmt")"""
+    from typedpy import SizedString, IPV4, HostName, JSONString, DateString, TimeString
+    kw = {n: d[n] for n in ("minLength", "maxLength", "pattern") if d.get(n) is not None}
+    fmt = d.get("fmt")
+    if fmt is None:
+        return SizedString(maxlen=d["maxlen"], **kw, **extra)
+    if d.get("maxlen") is not None or d.get("pattern") is not None:
+        raise ValueError("build_field: a formatted string with maxlen / pattern is outside the model")
+    if fmt == "ipv4":
+        return IPV4(**kw, **extra)
+    if fmt == "hostname":
+        return HostName(**kw, **extra)
+    if fmt == "json":
+        return JSONString(**kw, **extra)
+    if fmt == "time":
+        if kw:
+            raise ValueError("build_field: TimeString takes no String keywords")
+        return TimeString(**extra)
+    if fmt.startswith("date:"):
+        return DateString(date_format=fmt[5:], **kw, **extra)
+    raise ValueError(f"build_field: string format {fmt}")
+
+
+def _xstring_fmt(f):
+    """the format token of an extension string field (None for String itself), or raise for unknown subclasses"""
+    from typedpy import SizedString, IPV4, HostName, JSONString, DateString, TimeString
+    t = type(f)
+    if t is SizedString:
+        return None
+    if t is IPV4:
+        return "ipv4"
+    if t is HostName:
+        return "hostname"
+    if t is JSONString:
+        return "json"
+    if t is TimeString:
+        return "time"
+    if t is DateString:
+        return "date:" + f._format
+    raise ValueError(f"dump_field: unsupported field type {t.__name__}")
+
+
+def _is_xstring(f):
+    from typedpy import SizedString, IPV4, HostName, JSONString, DateString, TimeString
+    return type(f) in (SizedString, IPV4, HostName, JSONString, DateString, TimeString)
 
 
 def _build_immutable(d, ctx, **extra):
@@ -358,9 +414,13 @@ def dump_field(f, ctx=None):
     t = type(f)
     t = {ImmutableArray: Array, ImmutableDeque: Deque, ImmutableMap: Map, ImmutableInteger: Integer,
          ImmutableString: String, ImmutableFloat: Float, ImmutableNumber: Number}.get(t, t)
+    if t.__name__ == "DecimalNumber" and t.__module__.startswith("typedpy."):
+        kind, sign = "number", "any"
+        d = {"k": kind, "dec": True}
+        t = Number
     if t in CLASS_TO_SIGN:
         kind, sign = CLASS_TO_SIGN[t]
-        d = {"k": kind}
+        d = {"k": kind, "dec": True} if type(f).__name__ == "DecimalNumber" else {"k": kind}
         if sign != "any":
             d["sign"] = sign
         if f.multiplesOf is not None:
@@ -375,6 +435,17 @@ def dump_field(f, ctx=None):
                 d["maxFloat"] = True
         if f.exclusiveMaximum:
             d["excl"] = True
+        return d
+    if _is_xstring(f):
+        d = {"k": "string"}
+        for n in ("minLength", "maxLength", "pattern", "maxlen"):
+            if getattr(f, n, None) is not None:
+                d[n] = getattr(f, n)
+        fmt = _xstring_fmt(f)
+        if fmt is not None:
+            d["fmt"] = fmt
+            if d.get("pattern") is not None:
+                raise ValueError("dump_field: a formatted string with a pattern is outside the model")
         return d
     if t is String:
         d = {"k": "string"}
